@@ -606,6 +606,12 @@ def check_folds(ctx, cfg, it, name):
         itv = d.args[0]
         shape = isinstance(itv, tuple) and len(itv) == 5 and itv[:3] == ("V", "iter", "slice")
         rng = shape and itv[3][1] == ("field", ("local", 1), (it.ia,)) and peq(an, d.facts, itv[3][2], lo * S) and peq(an, d.facts, itv[3][3], hi - lo)
+        from ..ownership import range_driver, indexed_traversal
+        by_index = range_driver(d) is not None
+        if by_index:
+            # the same traversal written over the index range index..index_back with `ptr::read(base.add(i))`: ascending for fold, descending for rfold
+            shape = True
+            rng = peq(an, d.facts, itv[2][0][1], lo) and peq(an, d.facts, itv[2][1][1], hi)
         init_ok = d.args[1] == ("V", "arg", 2)
         cv = d.args[2]
         cl_ok = False
@@ -632,11 +638,20 @@ def check_folds(ctx, cfg, it, name):
             calls = [c for c in ca.calls if c.fn == "core::ops::FnMut::call_mut"]
             reads = [c for c in ca.calls if c.fn == "core::ptr::read"]
             argok = len(calls) == 1 and len(reads) == 1 and calls[0].args[1] == ("A", "tuple", (("V", "arg", 2), reads[0].ret)) and all(r["val"] == calls[0].ret for r in ca.returns)
+            if by_index:
+                # slot i of THIS iterator's storage, and the cursor store fits the direction (absolute `i + 1` / `i`, or the relative step)
+                bases, why = indexed_traversal(an, d, {"ops": cv[2]}, info, role, owner_adts(db))
+                store = bases is not None and bool(bases) and all(bse == ("field", ("local", 1), (it.ia,)) for bse in bases)
+                absd = {("abs", 1): 1, ("abs", 0): -1}
+                deltas = {absd.get(x, x) for x in deltas}
+                pos_ok = pos_ok and store
+                if bases is None:
+                    cdet = why
             cl_ok = cok and role == "consumer" and pos_ok and deltas == {want_delta} and argok
-            cdet = "closure: protocol ok %s, advances %s by %s, calls f(acc, value) once and returns its result: %s" % (cok, "index" if name == "fold" else "index_back", sorted(deltas), argok)
+            cdet = (cdet + "; " if by_index and cdet and not cl_ok else "") + "closure: protocol ok %s, advances %s by %s, calls f(acc, value) once and returns its result: %s" % (cok, "index" if name == "fold" else "index_back", sorted(deltas, key=repr), argok)
         ret_ok = all(r["val"] == d.ret for r in an.returns)
         ok = shape and rng and init_ok and cl_ok and ret_ok
-        det = "%s over slice iter of [index, index_back): %s; init passed through: %s; %s; result returned: %s" % (want_fn.split("::")[-1], bool(rng), init_ok, cdet, ret_ok)
+        det = "%s over %s [index, index_back): %s; init passed through: %s; %s; result returned: %s" % (want_fn.split("::")[-1], "the index range" if by_index else "slice iter of", bool(rng), init_ok, cdet, ret_ok)
     ctx.ob(rule, K[name], ok, det, at=b["at"], cfg=cfg)
     ctx.sample({"rule": rule, "method": name, "cfg": cfg, "detail": det})
 
